@@ -705,6 +705,16 @@ func (u *connectStreamingUnmarshaler) Unmarshal(message any) *Error {
 	if err := json.Unmarshal(env.Data.Bytes(), &end); err != nil {
 		return errorf(CodeInternal, "unmarshal end stream message: %w", err)
 	}
+	for name, value := range end.Trailer {
+		// Peers may send metadata keys in any case (lowercase is common), but
+		// HTTP field names are case-insensitive: canonicalize the keys so that
+		// http.Header's Get, Values, and Del work as usual.
+		canonical := http.CanonicalHeaderKey(name)
+		if name != canonical {
+			delete(end.Trailer, name)
+			end.Trailer[canonical] = append(end.Trailer[canonical], value...)
+		}
+	}
 	u.trailer = end.Trailer
 	u.endStreamErr = (*Error)(end.Error)
 	return errSpecialEnvelope
